@@ -40,6 +40,63 @@ KF_WITNESSES = [
     ("K12", "typedef int T; void f(void){ int T, y = T * 2; }", "typedef int T; void f(void){ int T; int y = T * 2; }"),
     ("K13", "typedef int T; int (*f(int T))(int) { return T * 2; }", "typedef int T; int (*f(int T_))(int) { return T_ * 2; }"),
     ("K13", "int f(a) int a; { return a; } typedef int a;", "int f(a_) int a_; { return a_; } typedef int a;"),
+    ("K42", "struct layout { int size; int offsetof; }; int offsetof;", "struct layout { int size; int offsetof_; }; int offsetof_;"),
+    ("K42", "int f(int offsetof) { return offsetof + 1; }", "int f(int offsetof_) { return offsetof_ + 1; }"),
+]
+
+# words that are ordinary identifiers in C99 and C11 although they look like keywords: C23 keywords, C++ keywords, library
+# macro names (a preprocessed unit that did not include the header may use them freely), GNU keywords that -std=c99 disables,
+# and near-misses of real keywords.  `offsetof` is missing on purpose: pycparser reserves it (open finding K42).
+NEAR_KEYWORDS = ("alignas alignof bool constexpr false nullptr static_assert thread_local true typeof typeof_unqual "
+                 "class new delete this template namespace try catch throw public private virtual operator friend using "
+                 "mutable explicit export typename and or not xor bitand bitor compl and_eq or_eq not_eq xor_eq "
+                 "noreturn complex imaginary assert va_arg va_list va_start NULL size_t wchar_t ptrdiff_t asm fortran "
+                 "Bool Atomic Pragma pragma line define defined include error generic Generic atomic Static_assert "
+                 "int8 uint long_ longlong Int INT Char sizeof_ Sizeof typedef_ Typedef struct_ Struct inline_ Restrict "
+                 "restrict_ auto_ Auto register_ unsigned_ Unsigned signed_ Signed enum_ Enum union_ Union if_ If else_ "
+                 "while_ do_ Do for_ For goto_ Goto return_ Return break_ switch_ case_ Case default_ Default continue_ "
+                 "u8 u U L R LR u8R x e E f F l ul UL ll LL p P b B i j I J").split()
+
+# one placeholder N; every template is valid C99 for any ordinary identifier N (validated with gcc for a neutral name)
+NAME_TEMPLATES = [
+    "int N;",
+    "int N = 1; int g(void) { return N + 1; }",
+    "void g(int N) { N++; }",
+    "int N(void) { return 0; }",
+    "int N(int a); int h(void) { return N(1); }",
+    "struct s { int size; int N; }; int g(struct s *p) { return p->N + (*p).N; }",
+    "struct N { int a; }; struct N v;",
+    "union N { int a; char c; }; union N w;",
+    "enum N { A1, B1 }; enum N e;",
+    "enum e { N, Z9 }; int v = N;",
+    "void g(void) { N: ; goto N; }",
+    "typedef int N; N v; N f(N a) { return (N)a; }",
+    "void g(void) { typedef char N; N c = 0; (void)sizeof(N); (void)c; }",
+    "int g(a, N) int a; int N; { return a + N; }",
+    "int g(void) { int N[3] = {0}; return N[0]; }",
+    "struct s { int N : 3; };",
+    "struct s { struct { int N; } in; } v = { .in = { .N = 1 } };",
+    "int N(void) { typedef int N; N v = 0; return v; }",
+    "int N(void) { int N = 0; return N; }",
+    "int N(void) { N: return 0; }",
+    "int N(void) { struct N { int a; } v = {0}; return v.a; }",
+    "int N(void) { enum { N_e = 1 }; { typedef long N; N q = N_e; return (int)q; } }",
+    "void g(void) { struct N *p = 0; (void)p; }",
+    "typedef struct N N; struct N { N *next; };",
+    "int g(void) { for (int N = 0; N < 3; N++) ; return 0; }",
+    "int g(int (*N)(int)) { return N(1); }",
+    "int N; int g(void) { return (int)sizeof N + (int)sizeof(N); }",
+    "int N; int *g(void) { return &N; }",
+    "int N; int g(int a) { return (N) + a - (N) * a + (N ? N : -N); }",
+    "int N[2]; int g(void) { return N[0] + *N; }",
+    "struct t { int a; } N; int g(void) { return N.a + (&N)->a; }",
+    "int g(int, int N, char *N2[]);",
+    "int N(int N1, int N2) { return N1 + N2; } int h(void) { return N(1, 2); }",
+    "typedef int N; void g(void) { N N1 = 1; { int N = N1; (void)N; } }",
+    "typedef int N; struct s { N N; }; int g(struct s *p) { return p->N; }",
+    "void g(void) { int N; { typedef int N; N v = 0; (void)v; } N = 1; (void)N; }",
+    "typedef int N; int g(N); int g(N x) { return x; }",
+    "extern int N; static int h(void) { extern int N; return N; }",
 ]
 
 
@@ -54,6 +111,8 @@ def plan(tier, seed):
         specs.append({"name": f"sem-{i}", "mode": "sem", "n": nsem, "rseed": seed * 1000 + 500 + i})
     specs.append({"name": "corpus", "mode": "corpus"})
     specs.append({"name": "kf", "mode": "kf"})
+    for i in range(2):
+        specs.append({"name": f"names-{i}", "mode": "names", "shard": i, "nshards": 2})
     for i in range(4):
         specs.append({"name": f"scaled-{i}", "mode": "scaled", "shard": i, "nshards": 4, "kmax": 150 if tier == "quick" else 600,
                       "pads": 330 if tier == "quick" else 1100})
@@ -100,6 +159,13 @@ def accept(text, fname, origin, counters):
         return {"kind": "valid-program-rejected", "sig": type(e).__name__ + ":" + str(e).split(": ", 1)[-1][:30],
                 "case": {"text": text, "filename": fname, "origin": origin},
                 "detail": {"error": f"{type(e).__name__}: {e}", "around": _around(text, str(e))}}
+
+
+def _inst(template, word):
+    import re
+    # helper identifiers of the templates get a prefix so that no word of the pool collides with them
+    template = re.sub(r"\b([aghsvwecpqxft]|in|size|next)\b", r"k_\1", template)
+    return re.sub(r"\bN(?=\b|_e\b|1\b|2\b)", word, template)
 
 
 def _around(text, msg):
@@ -164,6 +230,36 @@ def run_shard(spec):
         elif spec["mode"] == "corpus":
             for name, text in corpus.zoo() + corpus.repo_files() + corpus.big_files():
                 one(text, name, {"file": name}, "corpus")
+        elif spec["mode"] == "names":
+            # identifier-role sweep: (template valid for an ordinary identifier) x (word that is an ordinary identifier in
+            # C99/C11).  gcc validates each factor separately: the template with a neutral name, and `int <word>;`
+            work = tempfile.mkdtemp(prefix="vf-c01-")
+            try:
+                def gcc_ok(text):
+                    fn = os.path.join(work, "n.c")
+                    with open(fn, "w") as f:
+                        f.write(text + "\n")
+                    return all(subprocess.run(["gcc", "-std=" + std, "-pedantic-errors", "-fsyntax-only", "-w", fn],
+                                              capture_output=True).returncode == 0 for std in ("c99", "c11"))
+                temps = []
+                for t in NAME_TEMPLATES:
+                    if gcc_ok(_inst(t, "zq_9")):
+                        temps.append(t)
+                        cnt["gcc_accepted"] += 1
+                    else:
+                        cnt["gcc_rejected_oracle_faults"] += 1
+                words = NEAR_KEYWORDS[spec["shard"]::spec["nshards"]]
+                for w in words:
+                    if not gcc_ok(f"int {w}; void use_{w}(int {w});"):
+                        cnt["gcc_rejected_oracle_faults"] += 1
+                        continue
+                    cnt["gcc_accepted"] += 1
+                    for ti, t in enumerate(temps):
+                        one(_inst(t, w), "names.c", {"template": ti, "word": w}, "names")
+                if len(res["samples"]) < 1:
+                    res["samples"].append({"words": len(words), "templates": len(temps), "text": _inst(NAME_TEMPLATES[17], words[0])})
+            finally:
+                shutil.rmtree(work, ignore_errors=True)
         elif spec["mode"] == "scaled":
             # size-scaled valid programs (the families of C16 are all valid C) and long declarators at every
             # alignment relative to the start of the input: acceptance must not depend on size or position
